@@ -106,6 +106,23 @@ func genCli() {
 			return true
 		})
 	}
+	// main: `time.Local = time.UTC` — no library formats or interprets a time in the zone of the process
+	localUTC := false
+	if mf := findFunc(f, "main"); mf != nil {
+		ast.Inspect(mf.Body, func(n ast.Node) bool {
+			a, ok := n.(*ast.AssignStmt)
+			if !ok || len(a.Lhs) != 1 || len(a.Rhs) != 1 {
+				return true
+			}
+			l, ok1 := a.Lhs[0].(*ast.SelectorExpr)
+			r, ok2 := a.Rhs[0].(*ast.SelectorExpr)
+			if ok1 && ok2 && l.Sel.Name == "Local" && r.Sel.Name == "UTC" {
+				localUTC = true
+			}
+			return true
+		})
+	}
+	facts["cli.processZoneIsUTC"] = localUTC
 	facts["cli.scanCanExit"] = scanExits
 	writeGen("Cli", fmt.Sprintf("def cliSanitizes : Bool := %v\ndef cliSanitizesPath : Bool := %v\ndef cliMaxDepth : Nat := %d\ndef cliScanCanExit : Bool := %v\n", san, pathSan, md, scanExits))
 	facts["cli.pathSanitized"] = pathSan
